@@ -3,6 +3,8 @@
 package parser
 
 import (
+	"strconv"
+
 	"wa-lang.org/wa/internal/wat/ast"
 	"wa-lang.org/wa/internal/wat/token"
 )
@@ -47,6 +49,24 @@ func (p *parser) parseModuleSection_global() *ast.Global {
 			p.acceptToken(token.EXPORT)
 			g.ExportName = p.parseStringLit()
 			p.acceptToken(token.RPAREN)
+
+			// 内联导出按出现的顺序登记(可以有多个)
+			globalIdx := g.Name
+			if globalIdx == "" {
+				// 匿名全局变量只能通过索引引用
+				n := len(p.module.Globals)
+				for _, spec := range p.module.Imports {
+					if spec.ObjKind == token.GLOBAL {
+						n++
+					}
+				}
+				globalIdx = strconv.Itoa(n)
+			}
+			p.module.Exports = append(p.module.Exports, &ast.ExportSpec{
+				Name:      g.ExportName,
+				Kind:      token.GLOBAL,
+				GlobalIdx: globalIdx,
+			})
 
 		case token.MUT: // (mut i32)
 			p.acceptToken(token.MUT)
